@@ -37,6 +37,7 @@ import os
 import random
 import shutil
 import tempfile
+import time
 from concurrent.futures import ThreadPoolExecutor
 
 import numpy as np
@@ -850,6 +851,7 @@ def run(ctx):
                        'the declared chemistry tables have pairwise distinct entries (checked by TLC on every chem event); ArrayGas arrays have one entry per layer',
                        'second-route and chem events of grids longer than 24 / 60 layers log a fixed sample of layers (the obligations are local)']
     tier = ctx.tier
+    t0 = time.time()
     # the design-level TLC runs are independent processes: run them side by side while taurex is imported
     with ThreadPoolExecutor(max_workers=6) as ex:
         jobs = [ex.submit(ctx.check_spec, 'exhaustive', 'MC_Atmosphere', 'MC_Atmosphere_%s.cfg' % tier,
@@ -867,6 +869,7 @@ def run(ctx):
             raise Machinery('the harness table of length units disagrees with astropy')
         results = [j.result() for j in jobs]
     ctx.exhaustive = True
+    t1 = time.time()
     res = results[1]
     vecs = res.tagged('VEC')
     if q:
@@ -878,11 +881,14 @@ def run(ctx):
     try:
         run_vectors(ctx, vecs, X)
         ctx.note('binding A: %d exported vectors replayed' % len(vecs))
+        t2 = time.time()
         run_traces(ctx, X)
+        t3 = time.time()
     finally:
         cleanup_tmp()
     from .. import history
     nh = history.run_history(ctx, history_scenarios(X), 8 if q else 60)
+    ctx.note('wall: design-level TLC + import %.0f s, vectors %.0f s, traces %.0f s, history %.0f s' % (t1 - t0, t2 - t1, t3 - t2, time.time() - t3))
     ctx.note('binding C: %d history walks on long-lived models (planet / grid / one-layer / emission settings), every model evaluated before its structure is read' % nh)
 
 
